@@ -9,19 +9,19 @@ CHECKS = {
          "Faults the OS cannot produce here (EIO, permissions as root) are not covered; quick samples 1/5 of the 3-file product.", "DESIGN.md §4.7, §5 C04"),
  "C11": ("exploration", "observed-set monitor: which outputs appear (build), which planted outputs disappear (clean), which per-source marker commands run (build, verify), compared with the set computed by an independent reading of the input rule; trees with all name shapes x dotted stems x look-alikes, input aliases, recursion, base != cwd",
          "The processed set is observed from effects of real runs, never from internal state; expected set computed by the harness's own rule; output names/bytes cross-checked with the reference model.",
-         "D10 (one source per output, no symlinks). Marker commands placed after dependency directives.", "DESIGN.md §5 C11"),
+         "D10 (one source per output); symbolic links only in the listed shapes (link to a source in another directory, link to a directory); a dedicated scenario uses file names that are not valid UTF-8. Marker commands placed after dependency directives.", "DESIGN.md §5 C11"),
  "C17": ("exploration", "self-observing commands (pwd -P, TXTPP_FILE, recorder shell printing argv) captured in outputs + strace execve/chdir/env monitor on CLI runs; depth 0..3 x base/cwd combinations x library/CLI x shell override x multi-line commands x exit codes; guard checks",
          "The contract is observed where it takes effect: by the command itself and at the execve syscall.",
-         "TXTPP_FILE accepted as absolute or base-/cwd-relative designation of the source (README vs code).", "DESIGN.md §5 C17"),
+         "TXTPP_FILE accepted as absolute or base-/cwd-relative designation of the source (README vs code); not judged below directory names that are not valid UTF-8 (the variable is a lossy rendering there), where only the working directory and success are judged.", "DESIGN.md §5 C17"),
  "C18": ("exploration", "in-process fuzzing with panic hook (all threads), logical deadlock predicate from the scheduler hooks, process-death witness file; CLI option-value runs with exit-status monitor; watchdog expiry = inconclusive",
          "Grammar-aware hostile and byte-mutated sources, include targets and leftovers x 4 modes x 0..16 threads; any panic of any thread, logical deadlock, abort or exit status outside {0,1,2} is a violation.",
-         "Commands neutralised (/bin/echo as shell); temp targets kept inside the scratch tree. Hang verdicts: logical deadlock and rescan predicates; shutdown-phase hangs as bounded progress (10 s, DESIGN §11); any other watchdog expiry is inconclusive.", "DESIGN.md §5 C18"),
+         "Commands of fuzzed sources neutralised (/bin/echo as shell), plus a fixed block of real pipe-heavy commands (stderr/stdout beyond a pipe buffer, stdin readers, NUL / non-UTF-8 output) under the default shell; temp targets kept inside the scratch tree. Hang verdicts: logical deadlock and rescan predicates; shutdown-phase hangs as bounded progress (10 s, DESIGN §11); any other watchdog expiry is inconclusive.", "DESIGN.md §5 C18"),
  "C06": ("exploration", "snapshot monitor (bytes, inode, sentinel mtime) around in-process verify runs on built projects: every single-point tamper class of every output must be rejected and left untouched; option mismatch / source edits judged against the real build run right after; strace write-set monitor on a CLI sample",
          "verify is executed on the real code for each tampering of each output (including dependencies and outputs of exactly 0 / 8192 / 16384 bytes) and its verdict compared with what an actual build does to the same tree; read-only-ness observed on inode/mtime and at the syscall level.",
-         "Trusted: determinism of commands (the build right after defines 'up to date'); strace parser (harness/src/sys.rs).", "DESIGN.md §5 C06"),
+         "Trusted: determinism of commands (the build right after defines 'up to date'); strace parser (harness/src/sys.rs). A dedicated scenario verifies through output paths that are symbolic links to regular files.", "DESIGN.md §5 C06"),
  "C07": ("exploration", "whole-tree snapshot equality S0 == clean(build(S0)) over generated projects and histories, marker-log monitor for executed commands, verdict monitor on erroneous sources, strace execve/creation monitor on a CLI sample",
          "Every history is executed on the real code; the full tree (file set, bytes, inode/mtime of non-generated files, directories) is compared with the pre-build snapshot; command execution during clean is observed through marker files and execve.",
-         "Inputs are dependency-closed (directory, recursive). Generated paths from the reference model / a superset scan.", "DESIGN.md §5 C07"),
+         "Inputs are dependency-closed (directory, recursive). Generated paths from the reference model / a superset scan. A dedicated scenario uses temp targets that are dangling symbolic links (build writes through them); CLI clean is also run with top-level options in front of the subcommand.", "DESIGN.md §5 C07"),
  "C08": ("fault_enumeration", "pre-state enumeration + crash injection: each generated path planted with each leftover class, build/needed must reproduce the reference tree; CLI builds aborted at every hook event (TXTPP_VERIF=abort-at=k) and SIGKILLed at random offsets, then rebuilt and compared with the reference tree",
          "Leftover classes and crash points are enumerated against the real code: 11 pre-state classes per generated path, every k-th hook/IO event of a full build (every event in thorough), random SIGKILLs; oracle = byte equality with the tree built from scratch.",
          "Crash = abort()/SIGKILL of the whole process group on tmpfs; no power-loss model (page cache is not dropped).", "DESIGN.md §5 C08"),
@@ -30,7 +30,7 @@ CHECKS = {
          "Trusted: snapshot utility; commands deterministic.", "DESIGN.md §5 C09"),
  "C10": ("exploration", "snapshot-diff monitor (bytes, inode, mtime, directories) over all four modes x ok/failing projects x input selections x recursion with decoy files and pre-planted outputs of unprocessed sources; allowed set computed independently; strace write-set monitor on a CLI sample",
          "Every run's diff must be a subset of the outputs/temp targets of the processed sources; decoys at near-miss names make a wrong path visible; syscall monitor catches write-then-restore.",
-         "Allowed set is a superset computed by scanning sources for temp/include/after lines.", "DESIGN.md §5 C10"),
+         "Allowed set is a superset computed by scanning sources for temp/include/after lines. Dedicated scenarios: non-UTF-8 file names with decoys at the lossy (U+FFFD) spellings of the outputs; output paths that are symbolic links to regular files (verify and clean only).", "DESIGN.md §5 C10"),
  "C12": ("exploration", "byte-scan monitor over outputs and temp files of generated and targeted mixed-line-ending projects built by the real code",
          "Every output/temp of every successful build is scanned for a byte that breaks the single line ending of its source's first line; inputs mix LF/CRLF in every channel.",
          "Domain D1 (CR only before LF). Temp ownership from the reference model.", "DESIGN.md §5 C12"),
@@ -39,7 +39,7 @@ CHECKS = {
          "Judged for sources whose directive results do not depend on the option (DESIGN §5 C13 domain note).", "DESIGN.md §5 C13"),
  "C16": ("exploration", "metamorphic runtime monitors: identity on directive-free hostile text; write-escape round trip (also with a live stored tag whose name occurs in the text); mixed sources vs reference model",
          "Texts are drawn from an alphabet of directive and tag look-alikes; each is built by the real code and compared byte for byte with the text itself.",
-         "Reference recogniser decides which lines are directive-free; blanks = space/tab.", "DESIGN.md §5 C16"),
+         "Reference recogniser decides which lines are directive-free; blanks = space/tab. Carriage returns inside line content are generated only where they cannot be read as part of a line ending (inside a line; before CRLF in a CRLF file; in texts without LF).", "DESIGN.md §5 C16"),
  "C01": ("exploration", "runtime differential monitor: real in-process builds of generated multi-file projects vs an independent reference model of the README semantics (bytes of every output/temp file + verdict)",
          "Each generated in-domain project is built by the real code and every byte of every output and temp file plus the verdict is compared with the reference model; held on the projects counted in the evidence, with the model's coverage tuples showing which state-machine combinations were reached.",
          "Trusted: reference model (harness/src/model.rs), domain DESIGN §4.3, /bin/sh + coreutils for the command vocabulary.", "DESIGN.md §5 C01"),
